@@ -9,6 +9,7 @@ import numpy as np
 from ..core import Check, RunResult, digest_of, HarnessError
 from .. import pool_ops
 from ..pool_ops import MUTATORS, DERIVERS, gen_object_spec, run_history
+from ..refmodel import random_unit_quat
 
 _EVO = None
 
@@ -138,6 +139,8 @@ class E3Check(Check):
 
     # ----------------------------------------------------------- generation
     def make_case(self, rng, tier, index):
+        if self.prop == "C08" and rng.random() < 0.03:
+            return gen_text_precision_case(rng)
         nobj = rng.choice([1, 2, 2, 3])
         big = tier == "thorough" and rng.random() < 0.3
         objs = [gen_object_spec(rng, small=not big) for _ in range(nobj)]
@@ -164,6 +167,9 @@ class E3Check(Check):
         evo = evo_ns()
         import contextlib
         import io
+        if case.get("kind") == "text_precision":
+            with contextlib.redirect_stdout(io.StringIO()):
+                return run_text_precision(evo, case, self)
         with contextlib.redirect_stdout(io.StringIO()):  # evo progress prints
             violation, steps, m = run_history(evo, case, self.prop)
         res = RunResult()
@@ -339,10 +345,35 @@ class E3Check(Check):
                         cases.append({"kind": "schema_result",
                                       "mix": self.mix, "objects": [A, B],
                                       "steps": steps})
+        if self.prop == "C08":
+            import random
+            r = random.Random(808)
+            for _ in range(6 if tier == "quick" else 30):
+                cases.append(gen_text_precision_case(r))
+            for mode in ("prop", "right", "left"):
+                for n in (60, 200):
+                    c = gen_text_precision_case(r)
+                    c["n"] = n
+                    c["ops"] = [{"op": "transform", "mode": mode,
+                                 "T": c["ops"][0].get("T") or
+                                 [1.0, 0.0, 0.0, 0.0, 0.0, 0.0, 0.0]}]
+                    cases.append(c)
         return cases
 
     # ------------------------------------------------------------ shrinking
     def shrink_candidates(self, case):
+        if case.get("kind") == "text_precision":
+            for i in range(len(case["ops"])):
+                if len(case["ops"]) > 1:
+                    c = copy.deepcopy(case)
+                    del c["ops"][i]
+                    yield c
+            for nn in (case["n"] // 2, case["n"] - 10):
+                if nn >= 10:
+                    c = copy.deepcopy(case)
+                    c["n"] = nn
+                    yield c
+            return
         if case.get("steps") is None:
             evo = evo_ns()
             violation, steps, m = run_history(evo, case, self.prop)
@@ -377,6 +408,10 @@ class E3Check(Check):
             yield c
 
     def describe(self, case):
+        if case.get("kind") == "text_precision":
+            return {"kind": "text_precision", "n": case["n"],
+                    "stamped": case["stamped"],
+                    "ops": [[o["op"], o.get("mode")] for o in case["ops"]]}
         return {
             "kind": case.get("kind"),
             "objects": [{k: o[k] for k in ("ctor", "stamped", "n")}
@@ -385,3 +420,118 @@ class E3Check(Check):
             f"generated at run time from step_seed={case.get('step_seed')} "
             f"({case.get('nsteps')} steps)",
         }
+
+
+# --------------------------------------------------------------------------
+# pose matrices as they come out of a text file (KITTI format, "%e": seven
+# significant digits): orthonormal only to ~1e-7, which evo's own check()
+# accepts.  The reference model's tolerances are built for exact rotations,
+# so this family has its own, deliberately narrow oracle: the counts of the
+# views agree, and every pose still passes evo's own validity check.
+
+
+def gen_text_precision_case(rng):
+    n = rng.choice([30, 60, 100, 150, 200])
+    ops = []
+    for _ in range(rng.randint(1, 3)):
+        r = rng.random()
+        if r < 0.5:
+            q = random_unit_quat(rng, rng.choice(["uniform", "small",
+                                                  "identity"]))
+            t = [rng.gauss(0, 5.0) for _ in range(3)]
+            if rng.random() < 0.2:
+                t = [0.0, 0.0, 0.0]
+            ops.append({"op": "transform",
+                        "mode": rng.choice(["left", "right", "prop"]),
+                        "T": [float(x) for x in q] + t})
+        elif r < 0.7:
+            ops.append({"op": "scale", "s": rng.choice([0.5, 2.0, 1.0])})
+        elif r < 0.9:
+            ops.append({"op": "downsample", "k": rng.choice([2, 10, 25])})
+        else:
+            ops.append({"op": "read", "view": rng.choice(
+                ["positions_xyz", "orientations_quat_wxyz", "distances"])})
+    return {"kind": "text_precision", "n": n, "stamped": rng.random() < 0.5,
+            "data_seed": rng.getrandbits(30),
+            "profile": {"scale": rng.choice([1.0, 10.0, 100.0]),
+                        "rot": rng.choice(["uniform", "small", "planar"]),
+                        "stationary": 0.0, "jump": 0.0, "gap": 0.0,
+                        "t0": 0.0, "dt": 0.1},
+            "ops": ops}
+
+
+def run_text_precision(evo, case, check):
+    from ..pool import gen_traj_data, se3_from
+    res = RunResult()
+    pos, quat, ts = gen_traj_data(case["data_seed"], case["n"],
+                                  case["profile"])
+    poses = []
+    for i in range(case["n"]):
+        T, _, _ = se3_from(list(quat[i]) + list(pos[i]))
+        poses.append(np.array([[float("%e" % x) for x in row] for row in T]))
+    T_ = evo.trajectory
+    if case["stamped"]:
+        obj = T_.PoseTrajectory3D(poses_se3=poses, timestamps=ts)
+    else:
+        obj = T_.PosePath3D(poses_se3=poses)
+    trail = []
+
+    def state(tag):
+        ok, details = copy.deepcopy(obj).check()
+        bad = {k: str(v) for k, v in details.items()
+               if k != "timestamps" and not str(v).startswith(("ok", "yes"))}
+        counts = {int(obj.num_poses), len(obj.poses_se3),
+                  len(obj.positions_xyz), len(obj.orientations_quat_wxyz)}
+        trail.append([tag, sorted(bad), sorted(counts)])
+        return bad, counts
+
+    bad, counts = state("input")
+    if bad:
+        # rounding pushed this one over evo's tolerance: not a valid input
+        res.stats["probe.text_precision_input_rejected"] += 1
+        res.digest = digest_of(trail)
+        return res
+    res.stats["probe.text_precision_input_accepted_by_check"] += 1
+    violation = None
+    for k, op in enumerate(case["ops"]):
+        name = op["op"]
+        if name == "transform":
+            T, _, _ = se3_from(op["T"])
+            name = "transform_" + op["mode"]
+            obj.transform(T, right_mul=op["mode"] in ("right", "prop"),
+                          propagate=op["mode"] == "prop")
+        elif name == "scale":
+            obj.scale(op["s"])
+        elif name == "downsample":
+            obj.downsample(max(2, obj.num_poses // op["k"]))
+        elif name == "read":
+            getattr(obj, op["view"])
+        bad, counts = state(name)
+        if len(counts) != 1:
+            violation = {"class": "C08",
+                         "sig": f"C08:text_precision:{name}:view-count",
+                         "detail": {"counts": sorted(counts), "op_index": k}}
+            break
+        if bad:
+            # a propagating transform composes all (imprecise) relative
+            # motions: poses that were pushed close to evo's tolerance by it
+            # may only cross it in a later, harmless step - such failures are
+            # attributed to the propagation
+            propagated = any(o["op"] == "transform" and o["mode"] == "prop"
+                             for o in case["ops"][:k + 1])
+            where = "after-propagating-transform" if propagated else name
+            violation = {
+                "class": "C08",
+                "sig": f"C08:text_precision:{where}:check-failed",
+                "detail": {"what": "valid input (pose matrices with seven "
+                           "significant digits, accepted by check()) fails "
+                           "evo's own validity check after this operation",
+                           "details": bad, "n": case["n"], "op_index": k}}
+            break
+    res.violation = violation
+    res.steps = len(trail)
+    res.digest = digest_of([trail, violation["sig"] if violation else None])
+    res.nontrivial_key = res.digest
+    res.aux["final_states"] = [res.digest]
+    res.aux["op_sequences"] = [digest_of([o["op"] for o in case["ops"]])]
+    return res
